@@ -87,6 +87,35 @@ PROPS["C07"] = {
                    "ignored_noop assumes an unacceptable Announce is not from the currently selected parent (the parent passed the list when it was selected)"],
 }
 
+def meas_items(obs, which):
+    """the `meas` items of an observation (port-tagged), restricted to sync/delay or peer-delay measurements"""
+    items = obs.split(" | ")[0].split(" ; ")
+    out = []
+    for it in items:
+        if ":meas " in it:
+            f = it.split()
+            # P<k>:meas <event> <off> <delay> <peer> <rawS> <rawD>
+            if which == "e2e" and (f[5] != "-" or f[6] != "-"):
+                out.append(it)
+            if which == "p2p" and f[4] != "-":
+                out.append(it)
+    return " ; ".join(out)
+
+
+PROPS["C09"] = {
+    "streams": [{"name": "inst"}],
+    "model_is_spec": ["inst"],
+    "spec_theorem": "every measurement of the model is the Spec/Formulas.lean value of one exchange (C09.handleSync_exact … handleDelayResp_exact)",
+    "nontrivial_op": "",
+    "rule": "inst: mixed host histories with directed Sync / Follow_Up / Delay_Req / Delay_Resp exchanges on slave ports in every "
+            "order (sync,fu | fu,sync | duplicates | losses | late and double transmit timestamps), one-step and two-step masters, "
+            "sequence ids near 65535, correction fields of every sign and magnitude, sub-ns timestamps, start times 0 … 2^63 ns. "
+            "Compared: every measurement handed to the (recording) filter, bit-exact. Independent oracle: each measurement must equal "
+            "the IEEE formula of one logged exchange of the parent. distinct = distinct ops that produced a measurement",
+    "explanation": "Lean provenance invariants per handler; Spec/Formulas.lean is the IEEE formula in exact fixed point",
+    "assumptions": INST_ASSUME + ["Spec/Formulas.lean transcribes IEEE 1588-2019 11.2-11.4 (trusted)"],
+}
+
 
 def split_obs(obs):
     """(items, status, state) of an instance-stream observation line"""
@@ -107,6 +136,11 @@ def projection(pid, stream, profile):
             items, status, state = split_obs(obs)
             return status + " | " + state
         return f
+    if pid == "C09":
+        def f9(op, obs):
+            m = meas_items(obs, "e2e")
+            return m if (m or ":meas" in obs) else None
+        return f9
     if pid == "C07":
         def f7(op, obs):
             return obs if "#ins:" in op else None
@@ -123,10 +157,13 @@ def count_nontrivial(pid, stream, ops, workdir):
     except FileNotFoundError:
         impl = [""] * len(ops)
     pat = PROPS.get(pid, {}).get("nontrivial_op")
+    proj = projection(pid, stream, "debug")
     for o, i in zip(ops, impl):
         if i in ("bad-op", "", "dead"):
             continue
         if pat and pat not in o:
+            continue
+        if proj(o, i) is None:
             continue
         seen.add(o)
     return len(seen)
